@@ -21,6 +21,7 @@ import (
 	"os"
 	"strings"
 	"sync"
+	"sync/atomic"
 	"time"
 
 	"github.com/cenkalti/rain/v2/internal/verif/vh"
@@ -44,7 +45,7 @@ func ipHalves(ip string) [2]int {
 }
 
 type cScenario struct {
-	kind          string // static | dup | banned | banq | reload | yourip
+	kind          string // static | dup | banned | banq | banrs | bandup | reload | yourip
 	out, inc, trk bool
 	variant       int
 	settle        time.Duration
@@ -61,6 +62,9 @@ type crun struct {
 	banned  map[string]bool
 	watch   map[string]int // IP -> port: a dial to it is only visible in the client's own state
 	seenW   map[string]bool
+	open    map[string]int  // IP -> connections the scripted side holds open with the client (CConn minus CDisc)
+	banPort map[string]int  // IP -> port to report when the client's own state shows it connecting to that banned IP
+	seenBD  map[string]bool // IP -> such a "connecting to a banned IP" state has been reported and still lasts
 	lst     []net.Listener
 	closers []func()
 	last    *torrent.VerifSnap
@@ -82,6 +86,31 @@ func (r *crun) count(m map[string]int, k string) int {
 	r.mu.Lock()
 	defer r.mu.Unlock()
 	return m[k]
+}
+
+// connUp / connDown record the scripted side's view of its own connections with the client.
+func (r *crun) connUp(ip, state string) {
+	r.mu.Lock()
+	r.open[ip]++
+	r.mu.Unlock()
+	r.emit(ev{"op": "CConn", "ip": ipHalves(ip), "a": ip, "state": state})
+}
+
+func (r *crun) connDown(ip string) {
+	r.emit(ev{"op": "CDisc", "ip": ipHalves(ip), "a": ip})
+	r.mu.Lock()
+	if r.open[ip] > 0 {
+		r.open[ip]--
+	}
+	r.mu.Unlock()
+}
+
+// dialSeen records a connection attempt that arrived at a scripted listener.  The scripted side orders its own
+// observations first: if it still holds a connection with that IP whose end it has not noticed yet (the client closes
+// the old connection and dials the IP again at once), it waits a moment for its reader to see the close.
+func (r *crun) dialSeen(ip string, port int, key string) {
+	r.waitFor(250*time.Millisecond, func() bool { return r.count(r.open, ip) == 0 })
+	r.emit(ev{"op": "CDial", "ip": ipHalves(ip), "port": port, "a": key, "via": "listener"})
 }
 
 func (r *crun) waitFor(timeout time.Duration, pred func() bool) bool {
@@ -108,6 +137,32 @@ func (r *crun) onSnap(s *torrent.VerifSnap) {
 		if !r.banned[ip] {
 			r.banned[ip] = true
 			evs = append(evs, ev{"op": "CBan", "ip": ipHalves(ip), "a": ip})
+		}
+	}
+	// the client's own state shows an OUTGOING handshake towards an IP it lists as banned: the IP is in connectedPeerIPs
+	// although no established peer has it and no incoming handshake is in progress (taken at a linearization point of the
+	// loop, so the order of ban and dial cannot be blurred by the scheduling of the scripted listeners)
+	for _, ip := range s.Banned {
+		conn := false
+		for _, x := range s.ConnectedIPs {
+			conn = conn || x == ip
+		}
+		for _, pe := range s.PeerList {
+			if h, _, err := net.SplitHostPort(pe.Addr); err == nil && h == ip {
+				conn = false
+			}
+		}
+		if conn && s.InHS == 0 && s.OutHS > 0 {
+			if !r.seenBD[ip] {
+				r.seenBD[ip] = true
+				p := r.banPort[ip]
+				if p == 0 {
+					p = 1
+				}
+				evs = append(evs, ev{"op": "CDial", "ip": ipHalves(ip), "port": p, "a": fmt.Sprintf("%s:%d", ip, p), "via": "snapshot"})
+			}
+		} else {
+			r.seenBD[ip] = false
 		}
 	}
 	for _, ip := range s.ConnectedIPs {
@@ -139,21 +194,21 @@ func (r *crun) listen(ip, mode string, ext bool, onConn func(c *vh.Conn)) *net.T
 			if err != nil {
 				return
 			}
-			r.emit(ev{"op": "CDial", "ip": ipHalves(ip), "port": addr.Port, "a": key, "via": "listener"})
+			r.dialSeen(ip, addr.Port, key)
 			r.mu.Lock()
 			r.dials[key]++
 			r.conns[ip] = append(r.conns[ip], nc)
 			r.mu.Unlock()
 			go func() {
 				if mode == "hang" {
-					r.emit(ev{"op": "CConn", "ip": ipHalves(ip), "a": ip, "state": "connecting"})
+					r.connUp(ip, "connecting")
 					buf := make([]byte, 256)
 					for {
 						if _, err := nc.Read(buf); err != nil {
 							break
 						}
 					}
-					r.emit(ev{"op": "CDisc", "ip": ipHalves(ip), "a": ip})
+					r.connDown(ip)
 					nc.Close()
 					return
 				}
@@ -162,14 +217,14 @@ func (r *crun) listen(ip, mode string, ext bool, onConn func(c *vh.Conn)) *net.T
 					nc.Close()
 					return
 				}
-				r.emit(ev{"op": "CConn", "ip": ipHalves(ip), "a": ip, "state": "connected"})
+				r.connUp(ip, "connected")
 				c := &vh.Conn{C: nc, Name: key, T: vhNul, Remote: rh, Quiet: true}
 				if onConn != nil {
 					go onConn(c)
 				}
 				if mode == "hsclose" {
 					time.Sleep(60 * time.Millisecond)
-					r.emit(ev{"op": "CDisc", "ip": ipHalves(ip), "a": ip})
+					r.connDown(ip)
 					nc.Close()
 					return
 				}
@@ -178,7 +233,7 @@ func (r *crun) listen(ip, mode string, ext bool, onConn func(c *vh.Conn)) *net.T
 						break
 					}
 				}
-				r.emit(ev{"op": "CDisc", "ip": ipHalves(ip), "a": ip})
+				r.connDown(ip)
 				nc.Close()
 			}()
 		}
@@ -200,7 +255,7 @@ func (r *crun) dialIn(localIP string, port int, ih [20]byte, keep bool) bool {
 		return false
 	}
 	r.emit(ev{"op": "CAccept", "ip": ipHalves(localIP), "a": localIP})
-	r.emit(ev{"op": "CConn", "ip": ipHalves(localIP), "a": localIP, "state": "connected"})
+	r.connUp(localIP, "connected")
 	r.mu.Lock()
 	r.accepts[localIP]++
 	r.mu.Unlock()
@@ -211,7 +266,7 @@ func (r *crun) dialIn(localIP string, port int, ih [20]byte, keep bool) bool {
 				break
 			}
 		}
-		r.emit(ev{"op": "CDisc", "ip": ipHalves(localIP), "a": localIP})
+		r.connDown(localIP)
 		nc.Close()
 	}()
 	if !keep {
@@ -315,7 +370,8 @@ const selfIP = "127.0.0.1"
 
 func runContact(sc cScenario, dir string, seed int64) {
 	r := &crun{sc: sc, dials: map[string]int{}, accepts: map[string]int{}, reqs: map[string]int{}, conns: map[string][]net.Conn{},
-		banned: map[string]bool{}, watch: map[string]int{}, seenW: map[string]bool{}}
+		banned: map[string]bool{}, watch: map[string]int{}, seenW: map[string]bool{},
+		open: map[string]int{}, banPort: map[string]int{}, seenBD: map[string]bool{}}
 	torrent.VerifSetTracer(r.onSnap)
 	defer torrent.VerifSetTracer(nil)
 	defer func() {
@@ -376,7 +432,10 @@ func runContact(sc cScenario, dir string, seed int64) {
 
 	// ---- scripted environment per kind
 	var manOk, manB, trkOk, trkB, pexOk, pexB *net.TCPAddr
-	var a1, a2, cCtl, inL, hang, hang2, later, ok1, ok2, xL, yCtl *net.TCPAddr
+	var a1, a2, cCtl, inL, hang, hang2, later, ok1, ok2, xL, yCtl, x2, pexP *net.TCPAddr
+	var phase2 atomic.Bool             // banrs: the torrent has been restarted
+	var xLp atomic.Pointer[net.TCPAddr] // banrs: address of the corrupting listener (known after the torrent is built)
+	gate := make(chan struct{})        // bandup: the corrupting peer answers only after the gate is opened
 	var tor *vh.Torrent
 	switch sc.kind {
 	case "static":
@@ -443,6 +502,31 @@ func runContact(sc cScenario, dir string, seed int64) {
 		hang = r.listen("127.0.0.30", "hang", false, nil)
 		yCtl = r.listen("127.0.0.29", "hsclose", false, nil)
 		ctl("control-dialled", dialled(yCtl))
+	case "banrs":
+		// ban, then stop/start (or Verify) of the torrent, then the banned IP is offered again by every source.
+		// x2: the banned IP under a second port; pexP: a peer that (after the restart) tells the client about the banned
+		// address and about the control address pexOk through ut_pex; yCtl / pexOk are only offered after the restart.
+		yCtl = r.listen("127.0.0.29", "hsclose", false, nil)
+		x2 = r.listen("127.0.0.28", "hs", false, nil)
+		pexOk = r.listen("127.0.0.26", "hs", false, nil)
+		pexP = r.listen("127.0.0.21", "hs", true, func(c *vh.Conn) {
+			c.Send(vh.Msg{ID: vh.MsgExtended, ExtID: 0, Data: vh.Enc(vh.Dict{"m": vh.Dict{"ut_pex": 1}, "v": "vh-c18"})})
+			time.Sleep(80 * time.Millisecond)
+			if !phase2.Load() {
+				return
+			}
+			add := append(append(compactAddr(pexOk), compactAddr(xLp.Load())...), compactAddr(x2)...)
+			r.emit(ev{"op": "CNote", "what": "pex-offer", "a": pexOk.String() + "," + xLp.Load().String() + "," + x2.String()})
+			c.Send(vh.Msg{ID: vh.MsgExtended, ExtID: 2, Data: vh.Enc(vh.Dict{"added": add, "added.f": []byte{0, 0, 0}, "dropped": []byte{}})})
+		})
+		ctl("control-dialled-after-restart", dialled(yCtl))
+		ctl("pex-control-dialled-after-restart", dialled(pexOk))
+	case "bandup":
+		// one dial slot, held by the corrupting peer itself; the same IP is queued under a second port meanwhile
+		yCtl = r.listen("127.0.0.29", "hsclose", false, nil)
+		x2 = r.listen("127.0.0.28", "hs", false, nil)
+		r.banPort["127.0.0.28"] = x2.Port
+		ctl("control-dialled", dialled(yCtl))
 	}
 	lay := vh.Layout{Name: fmt.Sprintf("c18-%s-%d", sc.kind, sc.variant), PieceLen: 16384, Files: []vh.FileSpec{{Length: int64(npieces)*16384 - 100}}}
 	tor = vh.Build(lay, seed, trackers, webseeds)
@@ -455,17 +539,27 @@ func runContact(sc cScenario, dir string, seed int64) {
 		}
 		return []vh.Msg{m}, true
 	}}
-	if sc.kind == "banned" || sc.kind == "banq" {
+	if sc.kind == "bandup" {
+		inner := corrupt.Reply
+		corrupt = &vh.SeederPolicy{NoExt: true, Reply: func(s *vh.Seeder, req vh.Msg) ([]vh.Msg, bool) {
+			select {
+			case <-gate:
+			case <-time.After(8 * time.Second):
+			}
+			return inner(s, req)
+		}}
+	}
+	if sc.kind == "banned" || sc.kind == "banq" || sc.kind == "banrs" || sc.kind == "bandup" {
 		l, err := vh.ListenSeeder(vhNul, "X", "127.0.0.28", tor, corrupt, func(s *vh.Seeder) {
 			a := s.C.LocalAddr().(*net.TCPAddr)
-			r.emit(ev{"op": "CDial", "ip": ipHalves("127.0.0.28"), "port": a.Port, "a": a.String(), "via": "listener"})
-			r.emit(ev{"op": "CConn", "ip": ipHalves("127.0.0.28"), "a": "127.0.0.28", "state": "connected"})
+			r.dialSeen("127.0.0.28", a.Port, a.String())
+			r.connUp("127.0.0.28", "connected")
 			r.mu.Lock()
 			r.dials[a.String()]++
 			r.mu.Unlock()
 			go func() {
 				<-s.Done()
-				r.emit(ev{"op": "CDisc", "ip": ipHalves("127.0.0.28"), "a": "127.0.0.28"})
+				r.connDown("127.0.0.28")
 			}()
 		})
 		if err != nil {
@@ -473,6 +567,7 @@ func runContact(sc cScenario, dir string, seed int64) {
 		}
 		r.lst = append(r.lst, l.L)
 		xL = l.Addr
+		xLp.Store(xL)
 	}
 
 	cfg, err := vh.BaseConfig(dir, 4)
@@ -492,7 +587,7 @@ func runContact(sc cScenario, dir string, seed int64) {
 	cfg.BlocklistEnabledForOutgoingConnections = sc.out
 	cfg.BlocklistEnabledForIncomingConnections = sc.inc
 	cfg.BlocklistEnabledForTrackers = sc.trk
-	if sc.kind == "reload" || sc.kind == "banq" {
+	if sc.kind == "reload" || sc.kind == "banq" || sc.kind == "bandup" {
 		cfg.MaxPeerDial = 1
 	}
 	sess, err := torrent.NewSession(cfg)
@@ -639,6 +734,100 @@ func runContact(sc cScenario, dir string, seed int64) {
 		if r.dialIn("127.0.0.28", port, tor.InfoHash, false) {
 			r.emit(ev{"op": "CNote", "what": "banned-ip-accepted-incoming", "a": "127.0.0.28"})
 		}
+	case "banrs":
+		offer(xL)
+		if !r.waitFor(6*time.Second, isBanned("127.0.0.28")) {
+			finish(false, []string{"ban-not-observed"})
+			return
+		}
+		r.waitFor(2*time.Second, func() bool { return !connected("127.0.0.28")() })
+		time.Sleep(50 * time.Millisecond)
+		status := func(want string) func() bool {
+			return func() bool { r.mu.Lock(); defer r.mu.Unlock(); return r.last != nil && r.last.Status == want }
+		}
+		running := func() bool {
+			r.mu.Lock()
+			defer r.mu.Unlock()
+			return r.last != nil && r.last.Acceptor && r.last.Status == "Downloading"
+		}
+		// the tracker returns the banned address (both ports) from now on: also in its answer to the 'started' announce
+		setMainPeers(func(int) []*net.TCPAddr {
+			r.emit(ev{"op": "CNote", "what": "tracker-offer", "a": xL.String() + "," + x2.String()})
+			return compactPeers(xL, x2)
+		})
+		rounds := 1
+		if sc.variant%3 == 2 {
+			rounds = 2
+		}
+		for k := 0; k < rounds; k++ {
+			if sc.variant%3 == 1 {
+				// Verify on the running torrent: stops it, checks the data, leaves it stopped
+				r.emit(ev{"op": "CNote", "what": "verify"})
+				if err := tr.Verify(); err != nil {
+					panic(err)
+				}
+				r.waitFor(3*time.Second, func() bool { return status("Verifying")() || status("Stopped")() })
+				r.waitFor(5*time.Second, func() bool { return status("Stopped")() || running() })
+			} else {
+				r.emit(ev{"op": "CNote", "what": "stop"})
+				if err := tr.Stop(); err != nil {
+					panic(err)
+				}
+				if !r.waitFor(5*time.Second, status("Stopped")) {
+					finish(false, []string{"torrent-not-stopped"})
+					return
+				}
+			}
+			if !running() {
+				r.emit(ev{"op": "CNote", "what": "start"})
+				if err := tr.Start(); err != nil {
+					panic(err)
+				}
+			}
+			if !r.waitFor(5*time.Second, running) {
+				finish(false, []string{"torrent-not-restarted"})
+				return
+			}
+			port = tr.Port()
+			r.emit(ev{"op": "CSelf", "self": ipHalves(selfIP), "sport": port})
+			phase2.Store(true)
+			// the banned address again: by the user, by the tracker (answer to 'started' and to a manual announce),
+			// through ut_pex of another peer, and dialling in itself
+			offer(xL)
+			offer(x2)
+			tr.Announce()
+			offer(pexP)
+			if r.dialIn("127.0.0.28", port, tor.InfoHash, false) {
+				r.emit(ev{"op": "CNote", "what": "banned-ip-accepted-incoming", "a": "127.0.0.28"})
+			}
+			time.Sleep(150 * time.Millisecond)
+		}
+		offer(yCtl)
+	case "bandup":
+		offer(xL)
+		if !r.waitFor(4*time.Second, func() bool {
+			r.mu.Lock()
+			defer r.mu.Unlock()
+			return r.last != nil && r.last.Outgoing == 1 && r.dials[xL.String()] > 0
+		}) {
+			finish(false, []string{"corrupting-peer-not-connected"})
+			return
+		}
+		// the same IP under a second port: stays queued, the only dial slot is held by the first connection
+		offer(x2)
+		if !r.waitFor(3*time.Second, func() bool { r.mu.Lock(); defer r.mu.Unlock(); return r.last != nil && r.last.AddrListLen >= 1 }) {
+			finish(false, []string{"second-address-not-queued"})
+			return
+		}
+		r.emit(ev{"op": "CNote", "what": "corrupt-data-released"})
+		close(gate)
+		if !r.waitFor(6*time.Second, isBanned("127.0.0.28")) {
+			finish(false, []string{"ban-not-observed"})
+			return
+		}
+		time.Sleep(100 * time.Millisecond)
+		closeConns("127.0.0.28") // frees the dial slot if the second port was dialled
+		offer(yCtl)
 	case "banq":
 		offer(hang)
 		if !r.waitFor(4*time.Second, func() bool { return r.count(r.dials, hang.String()) > 0 }) {
@@ -653,7 +842,7 @@ func runContact(sc cScenario, dir string, seed int64) {
 			return
 		}
 		r.emit(ev{"op": "CAccept", "ip": ipHalves("127.0.0.28"), "a": "127.0.0.28"})
-		r.emit(ev{"op": "CConn", "ip": ipHalves("127.0.0.28"), "a": "127.0.0.28", "state": "connected"})
+		r.connUp("127.0.0.28", "connected")
 		if !r.waitFor(6*time.Second, isBanned("127.0.0.28")) {
 			finish(false, []string{"ban-not-observed"})
 			return
@@ -663,7 +852,7 @@ func runContact(sc cScenario, dir string, seed int64) {
 		case <-time.After(2 * time.Second):
 			sd.Close()
 		}
-		r.emit(ev{"op": "CDisc", "ip": ipHalves("127.0.0.28"), "a": "127.0.0.28"})
+		r.connDown("127.0.0.28")
 		r.waitFor(2*time.Second, func() bool { return !connected("127.0.0.28")() })
 		offer(yCtl)
 		time.Sleep(80 * time.Millisecond)
